@@ -52,6 +52,9 @@ else: m['round_note']='first round: the sub-agent was given only the text of the
 m['confirmed']={'demo_on_clean_tree':'passes','demo_with_patch':'fails','repository_suite_with_patch':'passes (cargo test --workspace --no-fail-fast --offline)','how':'tools/seedcheck.sh in a scratch worktree of /repo'}
 m['checks_run']=sys.argv[4].split()
 m['check_results']=[l for l in sys.argv[5].splitlines() if l.strip()]
+import os
+if os.environ.get('SEED_HISTORY'): m['history']=os.environ['SEED_HISTORY']
+if os.environ.get('SEED_ACTUAL'): m['actually_breaks']=os.environ['SEED_ACTUAL']
 json.dump(m,open(sys.argv[2],'w'),indent=1)
 PY
 fi
